@@ -4,11 +4,11 @@
     All theorems are about the Gallina model Qdldl/Model.v (tied to qdldl.rs by the
     correspondence run) and hold for every input of every size.
 
-    NOT proved (kept visible): [factor_correct] — "factor A = Ok (L,D) -> (I+L) D (I+L)' = P A P'
-    over a field when no pivot is regularised".  What is proved towards it: the per-pivot trace
-    theorem [C12_factor_inner_pivots], the solve theorems (which take L, D as given) and the
-    soundness of the exact residual checker that the correspondence evaluates on every sample
-    ([C12_chk_ldl_sound], with c = 0 on the exactness domain: exact equality).  *)
+    [C12_factor_correct]: over any commutative ring in which non-zero elements have reciprocals,
+    when regularisation is off and the numeric factorisation returns Ok, (I+L) D (I+L)' equals
+    the (permuted) input on the upper triangle, entrywise — no boolean hypothesis left: the
+    elimination-tree lemmas ([C12_etree_ancestor], [C12_reach_closed_from_etree]) discharge the
+    reach condition.  *)
 From Coq Require Import List ZArith.
 Require Import Clarabel.Base.Ops Clarabel.Qdldl.Model Clarabel.Qdldl.Spec.
 Require Import Clarabel.Qdldl.LemmasPerm Clarabel.Qdldl.LemmasPermSym Clarabel.Qdldl.LemmasFactor
@@ -16,6 +16,12 @@ Require Import Clarabel.Qdldl.LemmasPerm Clarabel.Qdldl.LemmasPermSym Clarabel.Q
 Require Import Clarabel.Qdldl.SpecChk Clarabel.Qdldl.LemmasChk.
 Require Import Clarabel.Qdldl.SpecFactorCorrect Clarabel.Qdldl.LemmasFactorCorrect.
 Require Import Clarabel.Qdldl.SpecBounds Clarabel.Qdldl.LemmasBounds.
+Require Import Clarabel.Qdldl.SpecEtree Clarabel.Qdldl.LemmasEtreeAnc Clarabel.Qdldl.LemmasReach
+        Clarabel.Qdldl.LemmasFactorCorrect3 Clarabel.Qdldl.LemmasFactorCorrectFinal
+        Clarabel.Qdldl.SpecFuel Clarabel.Qdldl.LemmasFuel Clarabel.Qdldl.SpecPermNoDup Clarabel.Qdldl.LemmasPermNoDup.
+Require Import Clarabel.Qdldl.SpecLnz Clarabel.Qdldl.LemmasLnzEtree Clarabel.Qdldl.LemmasLnzFactor
+        Clarabel.Qdldl.SpecPermEntries Clarabel.Qdldl.LemmasPermEntries
+        Clarabel.Qdldl.SpecEndToEnd Clarabel.Qdldl.LemmasGlue Clarabel.Qdldl.LemmasEndToEnd.
 
 (** (a) ordering vectors: accepted iff a permutation, the result is the inverse; the code
     before the fix is refuted (finding F1) *)
@@ -99,8 +105,7 @@ Proof. exact chk_solve_sound. Qed.
 
 (** towards factor_correct: one elimination step and the whole second loop of a row as a
     forward substitution, under the boolean [reach_closed] (evaluated by the correspondence on
-    every sample through [reach_closed_all]).  The full statement is
-    [SpecFactorCorrect.stmt_factor_correct_partial] — stated, NOT proved. *)
+    every sample through [reach_closed_all]) — steps of the proof of [C12_factor_correct]. *)
 Theorem C12_rowB_step_algebraic : stmt_rowB_step_algebraic.
 Proof. exact rowB_step_algebraic_ok. Qed.
 Theorem C12_rowB_forward_subst : stmt_rowB_forward_subst.
@@ -118,3 +123,46 @@ Theorem C12_flatten_wf_L : stmt_flatten_wf_L.
 Proof. exact flatten_wf_L_ok. Qed.
 Theorem C12_factor_ws_wf_L : stmt_factor_ws_wf_L.
 Proof. exact factor_ws_wf_L_ok. Qed.
+
+(** factor_correct *)
+Theorem C12_factor_correct_partial : stmt_factor_correct_partial.
+Proof. exact factor_correct_partial_ok. Qed.
+Theorem C12_etree_ancestor : stmt_etree_ancestor.
+Proof. exact etree_ancestor_ok. Qed.
+Theorem C12_reach_closed_from_etree : stmt_reach_closed_from_etree.
+Proof. exact reach_closed_from_etree_ok. Qed.
+Theorem C12_factor_correct : stmt_factor_correct.
+Proof. exact factor_correct_ok. Qed.
+Theorem C12_permute_symmetric_triu_nodup : stmt_permute_symmetric_triu_nodup.
+Proof. exact permute_symmetric_triu_nodup_ok. Qed.
+
+(** fuel sufficiency: OutOfFuel is unreachable on upper-triangular input *)
+Theorem C12_etree_total : stmt_etree_total.
+Proof. exact etree_total_ok. Qed.
+Theorem C12_reach_walk_total : stmt_reach_walk_total.
+Proof. exact reach_walk_total_ok. Qed.
+Theorem C12_factor_inner_no_fuel : stmt_factor_inner_no_fuel.
+Proof. exact factor_inner_no_fuel_ok. Qed.
+Theorem C12_factor_inner_errors_wf : stmt_factor_inner_errors_wf.
+Proof. exact factor_inner_errors_wf_ok. Qed.
+
+(** Lnz is exact: the column counts predicted by _etree are the numbers of entries the
+    factorisation writes (no padding, no overflow of the flat layout) *)
+Theorem C12_etree_lnz_count : stmt_etree_lnz_count.
+Proof. exact etree_lnz_count_ok. Qed.
+Theorem C12_factor_cols_count : stmt_factor_cols_count.
+Proof. exact factor_cols_count_ok. Qed.
+
+(** the permuted copy holds sym(A) at permuted positions; dense glue *)
+Theorem C12_permuted_entries : stmt_permuted_entries.
+Proof. exact permuted_entries_ok. Qed.
+Theorem C12_ldlt_dense : stmt_ldlt_dense.
+Proof. exact ldlt_dense_ok. Qed.
+Theorem C12_flatten_lcol : stmt_flatten_lcol.
+Proof. exact flatten_lcol_ok. Qed.
+Theorem C12_lnz_exact : stmt_lnz_exact.
+Proof. exact lnz_exact_ok. Qed.
+
+(** END TO END: new (numeric, regularisation off) + solve returns x with sym(A) x = b *)
+Theorem C12_qnew_solve_correct : stmt_qnew_solve_correct.
+Proof. exact qnew_solve_correct_ok. Qed.
